@@ -257,6 +257,28 @@ class InlinePass(ir.passes.InPlacePass):
         output_values = [value_map[output] for output in function.outputs]
         return nodes, output_values  # type: ignore[return-value]
 
+    def _add_nested_value_names(self, graph: ir.Graph) -> None:
+        """Record the value names used in the subgraphs nested (at any depth) in ``graph``."""
+        for node in graph:
+            for attr in node.attributes.values():
+                if attr.type == ir.AttributeType.GRAPH:
+                    subgraphs = [attr.as_graph()]
+                elif attr.type == ir.AttributeType.GRAPHS:
+                    subgraphs = list(attr.as_graphs())
+                else:
+                    continue
+                for subgraph in subgraphs:
+                    for input in subgraph.inputs:
+                        if input.name is not None:
+                            self._used_value_names.add(input.name)
+                    for initializer in subgraph.initializers:
+                        self._used_value_names.add(initializer)
+                    for sub_node in subgraph:
+                        for output in sub_node.outputs:
+                            if output.name is not None:
+                                self._used_value_names.add(output.name)
+                    self._add_nested_value_names(subgraph)
+
     def _inline_calls_in(
         self, graph: ir.Graph
     ) -> tuple[dict[ir.OperatorIdentifier, int], int]:
@@ -273,6 +295,9 @@ class InlinePass(ir.passes.InPlacePass):
                 self._used_value_names.add(input.name)
         for initializer in graph.initializers:
             self._used_value_names.add(initializer)
+        # Values of nested graphs share the namespace of this graph: names given to inlined
+        # values here must not clash with names local to a subgraph of a later node either.
+        self._add_nested_value_names(graph)
 
         # Pre-processing:
         # * Count the number of times each function is called in the graph.
